@@ -331,6 +331,23 @@ def q_rules(P, E):
                   "AsyncFunctionQueue::stop() - which discards every queued task - is reached from %s, not from an explicit "
                   "IScheduler::abort: tasks posted while no abort was pending are dropped unrun" % x.nid, body=x, line=c.line)
 
+    # ---- Q13: nothing but the worker loop waits: post / stop / abort return without waiting for another thread (abort is called with
+    # StreamController's on_finalize guard held, from a thread the worker may be waiting for: a worker join / condvar wait there deadlocks)
+    WAITS = CONDVAR_WAIT | {"std::thread::JoinHandle::join", "std::thread::park", "std::sync::mpsc::Receiver::recv",
+                            "std::sync::Barrier::wait", "std::thread::sleep"} if isinstance(CONDVAR_WAIT, (set, frozenset)) else set(CONDVAR_WAIT) | {
+                            "std::thread::JoinHandle::join", "std::thread::park", "std::sync::mpsc::Receiver::recv", "std::sync::Barrier::wait", "std::thread::sleep"}
+    for x in P.bodies.values():              # inlined views: a private wait helper of the worker loop is judged inside the loop
+        if not (x.nid.startswith("schedulers::") or x.nid.startswith("<schedulers::")) or x.kind == "const" or x.id in P.absorbed:
+            continue
+        for c in x.calls:
+            if c.path in WAITS:
+                inside_worker = x.nid == AFQ + "::scheduling" or x.nid.startswith(AFQ + "::scheduling::")
+                r.instance(("Q13", x.nid, c.path.split("::")[-1]), True, "blocking call in %s" % x.nid)
+                if not inside_worker:
+                    r.violate(("Q13", x.nid, "blocking wait outside the worker loop"),
+                              "%s blocks in %s: scheduler calls made from other threads (post, abort - abort runs under the controller's "
+                              "finalize guard) must return without waiting for the worker" % (x.nid, c.path), body=x, line=c.line)
+
     # ---- Q10: stop clears under the guard, with the flag
     qa, held, sh = _field_acqs(P, stop, "queue")
     clears = [c for c in stop.calls if c.path == DEQUE + "clear"]
